@@ -274,9 +274,23 @@ Limited(f, I, N) == LET qs == QuerierSeq(I) IN          \* f[c] = unlimited answ
                     MergeResults([i \in DOMAIN qs |-> Trunc(f[qs[i]], N)], N)
 
 -----------------------------------------------------------------------------
-(* Sharding (C18): H is an uninterpreted hash of the label set; the harness  *)
-(* supplies the real labels.StableHash values, the model only fixes the      *)
-(* algebra: shard i of n = the matching series with H(s) % n = i.           *)
+(* Sharding (C18): a series belongs to shard H(labels) % n where H is a      *)
+(* function of the label set alone.  H is uninterpreted here: the model      *)
+(* fixes the algebra (ShardOf / ShardAlgebra below), the observed shard of   *)
+(* every series and the real labels.StableHash of the three build variants   *)
+(* are validated against Trace_Shard.tla.                                    *)
+ShardOf(S, H, n, i) == {s \in S : H[s] % n = i}
+\* whatever H is, the shards 0..n-1 of a selection are pairwise disjoint and their union is the
+\* selection (checked for three sample hash functions over the series ids)
+RECURSIVE EnumIds(_)
+EnumIds(S) == IF S = {} THEN <<>> ELSE LET x == CHOOSE x \in S : TRUE IN <<x>> \o EnumIds(S \ {x})
+IdSeq  == TLCEval(EnumIds(AllIds))
+IdRank == TLCEval([s \in AllIds |-> CHOOSE i \in DOMAIN IdSeq : IdSeq[i] = s])
+SampleHashes == {[s \in AllIds |-> 0], IdRank, [s \in AllIds |-> 7 * IdRank[s] + 3]}
+ShardAlgebra(S, n) ==
+  \A H \in SampleHashes :
+    /\ UNION {ShardOf(S, H, n, i) : i \in 0..(n - 1)} = S
+    /\ \A i, j \in 0..(n - 1) : i # j => ShardOf(S, H, n, i) \cap ShardOf(S, H, n, j) = {}
 
 -----------------------------------------------------------------------------
 (* Behaviour                                                                *)
@@ -358,6 +372,13 @@ Query(ms) ==
   /\ nops' = nops + 1
   /\ hist' = Append(hist, QueryRec(ms))
 
+\* Select with SelectHints{ShardIndex: i, ShardCount: n} for every i < n, over the whole time axis;
+\* the unsharded answer is bounded like any Select
+ShardQuery(ms, n) ==
+  /\ UNCHANGED <<store, phase>>
+  /\ nops' = nops + 1
+  /\ hist' = Append(hist, [a |-> "Shard", ms |-> ms, n |-> n, may |-> May(ms), must |-> <<Must(ms, <<1, NPoints>>)>>])
+
 \* simulation: arguments drawn at random (single successor per disjunct; the random values are
 \* bound by a quantifier over a singleton so that they are evaluated exactly once)
 RandMsOf(k) == [i \in 1..k |-> RandomElement(Singles)]
@@ -378,6 +399,7 @@ Next ==
                 /\ \/ \E lm \in AllIds, t \in 1..NPoints : AppendSample(lm, t)
                    \/ Cut
              \/ \E ms \in MsLists : Query(ms)
+             \/ \E ms \in MsLists \ {<<>>}, n \in ShardCounts : ShardQuery(ms, n)
   \/ End
 
 Spec == Init /\ [][Next]_vars
@@ -389,6 +411,8 @@ TypeOK == /\ phase \in 1..3
           /\ \A s \in Stored : store[s] # {} /\ store[s] \subseteq 1..NPoints /\ \A t \in store[s] : Cont(t) <= phase
 
 IsQ  == hist' # hist /\ Last(hist').a = "Q"
+IsShard == hist' # hist /\ Last(hist').a = "Shard"
+ShardsPartition == [][IsShard => ShardAlgebra(May(Last(hist').ms), Last(hist').n)]_vars
 QMs  == Last(hist').ms
 
 \* Known findings (known_findings.json), written as narrow predicates on the matcher list:
